@@ -137,7 +137,7 @@ fn closed_form_case(rng: &mut Rng, class: Class, out: &mut CaseOut) {
     let api = gen::api(rng, rate, k, r);
     let poison = rng.chance(1, 2);
     let _p = Poison::new(poison, rng.next_u64());
-    let originals = gen::originals(rng, k, size);
+    let originals = gen::originals_for(rng, rate, k, r, size);
     let desc = format!(
         "k={k} r={r} rate={} size={size} api={} poison={poison}",
         rate.name(),
@@ -226,7 +226,7 @@ fn rs16_case(rng: &mut Rng, out: &mut CaseOut) {
     } else {
         Api::Rate(rate, *rng.pick(&engines))
     };
-    let originals = gen::originals(rng, k, size);
+    let originals = gen::originals_for(rng, rate, k, r, size);
     let desc = format!("k={k} r={r} rate={} size={size} api={}", rate.name(), api.name());
     let ours = match codec::encode_fresh(api, k, r, size, &originals) {
         Ok(v) => v,
